@@ -426,27 +426,59 @@ theorem sum_nonneg_of_pos (mv : List (Rat × Rat)) (h : ∀ p ∈ mv, 0 < p.1 * 
     have h2 := ih fun q hq => h q (List.mem_cons_of_mem _ hq)
     linarith
 
+theorem mapM_guard {α β : Type} (t : Prop) [Decidable t] (g : α → β) (l : List α) :
+    l.mapM (fun p => if t then (none : Option β) else some (g p))
+      = if t ∧ l ≠ [] then none else some (l.map g) := by
+  induction l with
+  | nil => simp
+  | cons x r ih =>
+    rw [List.mapM_cons, ih]
+    by_cases ht : t <;> simp [ht]
+
+/-- `massFractions` in closed form: the empty mixture gives the empty result, a non-empty mixture with
+    total 0 fails, otherwise every product is divided by the total (a plain `List.sum`). -/
+theorem massFractions_eq (mv : List (Rat × Rat)) :
+    massFractions mv =
+      if (mv.map fun p => p.1 * p.2).sum = 0 ∧ mv ≠ [] then none
+      else some (mv.map fun p => p.1 * p.2 / (mv.map fun p => p.1 * p.2).sum) := by
+  unfold massFractions
+  simp only [foldl_add_eq_sum, zero_add]
+  exact mapM_guard _ _ mv
+
+theorem massFractions_nil : massFractions [] = some [] := by
+  rw [massFractions_eq]; simp
+
+theorem massFractions_isSome_iff (mv : List (Rat × Rat)) :
+    (massFractions mv).isSome ↔ (mv = [] ∨ (mv.map fun p => p.1 * p.2).sum ≠ 0) := by
+  rw [massFractions_eq]
+  by_cases h1 : mv = []
+  · simp [h1]
+  · by_cases h2 : (mv.map fun p => p.1 * p.2).sum = 0 <;> simp [h1, h2]
+
 theorem massFractions_spec (mv : List (Rat × Rat)) (fr : List Rat)
     (h : massFractions mv = some fr) :
-    fr.length = mv.length ∧ fr.sum = 1 ∧
+    fr.length = mv.length ∧ (mv ≠ [] → fr.sum = 1) ∧
     (∀ i (hi : i < mv.length) (hj : i < fr.length),
       fr[i] * (mv.map fun p => p.1 * p.2).sum = mv[i].1 * mv[i].2) ∧
     ((∀ p ∈ mv, 0 < p.1 * p.2) → ∀ x ∈ fr, 0 < x) := by
-  unfold massFractions at h
-  simp only [foldl_add_eq_sum, zero_add] at h
+  rw [massFractions_eq] at h
   split at h
   · cases h
-  · next hne =>
+  · next hcond =>
     simp only [Option.some.injEq] at h
     subst h
+    have hne : mv ≠ [] → (mv.map fun p => p.1 * p.2).sum ≠ 0 := fun hm hz => hcond ⟨hz, hm⟩
     refine ⟨List.length_map _, ?_, ?_, ?_⟩
-    · rw [sum_map_div, div_self hne]
+    · intro hm
+      rw [sum_map_div, div_self (hne hm)]
     · intro i hi hj
-      rw [List.getElem_map, div_mul_cancel₀ _ hne]
+      have hm : mv ≠ [] := fun e => by rw [e] at hi; exact Nat.not_lt_zero _ hi
+      rw [List.getElem_map, div_mul_cancel₀ _ (hne hm)]
     · intro hpos x hx
       obtain ⟨p, hp, rfl⟩ := List.mem_map.mp hx
+      have hm : mv ≠ [] := List.ne_nil_of_mem hp
       have hnn := sum_nonneg_of_pos mv hpos
-      have htot : 0 < (mv.map fun p => p.1 * p.2).sum := lt_of_le_of_ne hnn (Ne.symm hne)
+      have htot : 0 < (mv.map fun p => p.1 * p.2).sum := lt_of_le_of_ne hnn (Ne.symm (hne hm))
       exact div_pos (hpos p hp) htot
 
 end ChemModel.Periodic
